@@ -7,7 +7,7 @@ CHECKS = {
              text="Held on every generated case: per-carrier, per-step conservation identities, non-negativity, bounds and per-source splits are asserted on the library's result for thousands (quick) / hundreds of thousands (thorough) of generated buildings covering all carriers, services, sources, regimes prod<use / prod>use / export to nEPB and grid, both load-matching modes. Exploration, not absence.",
              note="Trusts: generator soundness (inputs valid by construction, DESIGN 3.1), tolerance policy of DESIGN 3.4 (f32 rounding).", ref="4/C01"),
  "C02": dict(tech="property-based testing (proptest): differential against an independent f64 reference model of the EN ISO 52000-1 equations",
-             text="Every numeric field of the EnergyPerformance value (per-step and annual flows, all weighted-energy terms per carrier / service / total, per-m2, RER) is compared with an independent f64 re-evaluation of equations (2),(9)-(14),(20)-(28),(32) on generated buildings x user/regulatory factor sets x k_exp x area x load matching; error parity is checked too. Exploration.",
+             text="Every numeric field of the EnergyPerformance value (per-step and annual flows, all weighted-energy terms per carrier / service / total, per-m2, RER) is compared with an independent f64 re-evaluation of equations (2),(9)-(14),(20)-(28),(32) on generated buildings x user/regulatory factor sets x k_exp x area x load matching; error parity is checked too. When the total is exactly zero RER must be 0. Exploration.",
              note="Trusts the reference model (written from the standard and the documented assumptions, no library logic shared) and the tolerance policy; reads the library's normalised component list as input (normalisation is C05/C06).", ref="4/C02"),
 
  "C03": dict(tech="property-based testing (proptest): metamorphic relation over four evaluations at k_exp = 0, 1, k1, k2",
@@ -18,7 +18,7 @@ CHECKS = {
              note="Trusts generator soundness and the tolerance policy.", ref="4/C04"),
 
  "C08": dict(tech="property-based testing (proptest): differential, full versus stripped factor set under catch_unwind",
-             text="For generated buildings (SALIDA lines anywhere, auxiliaries as only electricity, cogeneration with and without declared input, nEPB uses, surplus ambient/solar) and prepared factor sets, Factors::strip and both evaluations are run under catch_unwind: no panic, a successful evaluation stays successful, all numeric fields agree within tolerance, and strip only removes factors. The DHW indicator computed from either result (what the program adds after simplifying the factors) must be the same value or the same error; a quarter of the buildings come from the DHW grammar. Exploration.",
+             text="For generated buildings (SALIDA lines anywhere, auxiliaries as only electricity, cogeneration with and without declared input, nEPB uses, surplus ambient/solar) and prepared factor sets, Factors::strip and both evaluations are run under catch_unwind: no panic, a successful evaluation stays successful, all numeric fields agree within tolerance, and strip only removes factors. The DHW indicator computed from either result (what the program adds after simplifying the factors) must be the same value or the same error; a quarter of the buildings come from the DHW grammar. 30 % of the factor sets carry explicit ELECTRICIDAD, COGEN lines as legacy files do. Exploration.",
              note="Trusts generator soundness and the tolerance policy.", ref="4/C08"),
  "C09": dict(tech="property-based testing (proptest): metamorphic relation under permutation and subdivision of time steps",
              text="Each generated building is evaluated in its base layout, with all steps permuted by a generated permutation and with each step split into m equal sub-steps (m in 2,3,4,5,8): every annual field and ratio must agree, per-step vectors must follow the permutation / carry 1/m, f_match must be unchanged. Exploration, cogeneration and load matching over-weighted.",
@@ -30,17 +30,17 @@ CHECKS = {
              text="Electricity-centred generated buildings hit every regime per step (no production, no use, PV>=use, PV<use<=PV+CHP, use>PV+CHP, PV==use, only CHP). Checked per step: PV allocated before cogeneration, allocations bounded by use and production, f_match == 1 without load matching and equal to formula (32) within [0.5,1] with it, and load matching never increases self-use nor decreases grid delivery (all carriers). Exploration.",
              note="Tolerance policy; f_match compared at 2e-5.", ref="4/C12"),
  "C14": dict(tech="property-based testing (proptest): metamorphic monotonicity on pairs (building, building + extra EL_INSITU production)",
-             text="For generated buildings under the four regulatory factor sets, k_exp in [0,1], both load-matching modes and generated non-negative per-step PV increments (zero, exactly / half / more than the uncovered use), non-renewable primary energy, CO2 (steps A and B) and grid-delivered energy must not increase and, at k_exp=0, RER must not decrease. One known finding (KF-C14-rer-cogen-displaced) is excused by signature. Exploration.",
+             text="For generated buildings under the four regulatory factor sets, k_exp in [0,1], both load-matching modes and generated non-negative per-step PV increments (zero, exactly / half / more than the uncovered use), non-renewable primary energy, CO2 (steps A and B) and grid-delivered energy must not increase and, at k_exp=0, RER must not decrease. One known finding (KF-C14-rer-cogen-displaced) is excused by signature. Increments range from 0.01 kWh to 500 MWh per step (very seasonal production). Exploration.",
              note="RER clause under the denominator noise rule; known finding signature = used cogenerated electricity decreases.", ref="4/C14"),
 
  "C05": dict(tech="property-based testing (proptest): parse generated files and compare with the generator's own lines; reference model of the completion; idempotence of normalize",
-             text="Generated component files dense in EAMBIENTE/TERMOSOLAR lines (several systems, ids negative/repeated, uses for all services, declared production none/partial/exact/surplus/orphan) are parsed: every declared CONSUMO/PRODUCCION/SALIDA line must be found unchanged (ids, tags, f32 values, comments), demands must equal the sum of their lines, the added production must equal max(0, use - declared) per carrier, system and step and nothing else may be added; surplus is exported and nothing is delivered by the grid; normalising twice equals once numerically. Exploration.",
+             text="Generated component files dense in EAMBIENTE/TERMOSOLAR lines (several systems, ids negative/repeated, uses for all services, declared production none/partial/exact/surplus/orphan) are parsed: every declared CONSUMO/PRODUCCION/SALIDA line must be found unchanged (ids, tags, f32 values, comments), demands must equal the sum of their lines, the added production must equal max(0, use - declared) per carrier, system and step and nothing else may be added; surplus is exported and nothing is delivered by the grid; normalising twice equals once numerically. Comments include marker words and the two comments the program writes on the components it adds itself (a saved output reused as input). Exploration.",
              note="AUX lines are C06's; numeric (not structural) comparison for idempotence, see DESIGN.", ref="4/C05"),
  "C06": dict(tech="property-based testing (proptest): reference model of the auxiliary split computed from the generated lines, checked after parsing and through the balance",
              text="For generated files with up to 5 auxiliary-bearing systems (single-service, multi-service with positive/negative/zero outputs, several AUX and SALIDA lines, electricity otherwise present or absent) the parsed AUX components are compared with a model: conservation per system and step, no negative share, EPB services only, single-service rule, output-magnitude proportions; then the electricity balance's EPB use per step and per service must equal CONSUMO + the split, also when AUX is the only electricity. One case in sixteen zeroes every output of a multi-service system: the file must then be refused, or the energy still conserved. Exploration.",
              note="Systems are assignable by construction except in the flagged unassignable cases; where all outputs are zero at a step only conservation and sign are required.", ref="4/C06"),
  "C07": dict(tech="property-based testing (proptest): generated factor files / locations / user factors, oracle = rules of the statement evaluated on the prepared set plus a building over its carriers",
-             text="Generated user factor files (subsets of carriers, export and on-site lines present or absent, duplicates, shuffled, distinct values) and the four locations, with user RED1/RED2 given or not: kept lines bit-identical through find(), forced keys (1,0,0), step A/B export defaults, RED precedence, no MissingFactor when evaluating a generated building over the set's carriers, idempotence of normalize and of re-preparing the printed set, and rejection of unusable sets. Exploration.",
+             text="Generated user factor files (subsets of carriers, export and on-site lines present or absent, duplicates, shuffled, distinct values) and the four locations, with user RED1/RED2 given or not: kept lines bit-identical through find(), forced keys (1,0,0), step A/B export defaults, RED precedence, no MissingFactor when evaluating a generated building over the set's carriers, idempotence of normalize and of re-preparing the printed set, and rejection of unusable sets. The all-zero triple and (1, 0, 0) are drawn as values of their own. Exploration.",
              note="Usable sets always contain the electricity grid factor; no COGEN-source lines.", ref="4/C07"),
  "C13": dict(tech="property-based testing (proptest): invariants on RER values over generated buildings under regulatory factors at k_exp = 0",
              text="RER must equal ren/(ren+nren) of the reported step B energy, lie in [0,1], and 0 <= RER_onst <= RER_nrb <= RER whenever total primary energy is above rounding noise; all three must be 0 when the total is exactly 0. Three known findings (export of on-site / cogenerated electricity not netted by origin) are excused by signature and counted. Exploration.",
@@ -50,7 +50,7 @@ CHECKS = {
              note="Closed form validated against the library on >1M cases; cogeneration is in the anchor of the property but not in its list of canonical mixes (DESIGN 8.2); tolerance 1e-4 plus f32 noise term proportional to DHW inputs / demand.", ref="4/C15"),
 
  "C19": dict(tech="property-based testing (proptest) driving the real cteepbd binary out of process, oracle = precedence model of the statement",
-             text="Each generated case is one run of /repo's cteepbd binary with, independently for area, k_exp, location, RED1, RED2, the option absent/valid/invalid and the metadata absent/valid/invalid (boundaries, out-of-range, non-numeric, empty), factor source none / -l / -f incl. the -f/-l conflict. Checked: exit status (0/1/64/65), the three echo lines with origin and value, --json k_exp/arearef/wfactors, --oc metadata, C_ep of the report against an in-process evaluation with the effective parameters, and no report / result files on refusal. Exploration over the configuration matrix. RED1/RED2 metadata are written in the three documented forms (a, b, c / (a, b, c) / { ren: a, nren: b, co2: c } in any key order), components of the triples are often exactly 0 or 1.",
+             text="Each generated case is one run of /repo's cteepbd binary with, independently for area, k_exp, location, RED1, RED2, the option absent/valid/invalid and the metadata absent/valid/invalid (boundaries, out-of-range, non-numeric, empty), factor source none / -l / -f incl. the -f/-l conflict. Checked: exit status (0/1/64/65), the three echo lines with origin and value, --json k_exp/arearef/wfactors, --oc metadata, C_ep of the report against an in-process evaluation with the effective parameters, and no report / result files on refusal. Exploration over the configuration matrix. RED1/RED2 metadata are written in the three documented forms (a, b, c / (a, b, c) / { ren: a, nren: b, co2: c } in any key order), components of the triples are often exactly 0 or 1. Invalid RED metadata include malformed triples (too many or too few items, trailing comma, decimal commas).",
              note="Corners on which the statement is silent accept both behaviours (listed in evidence assumptions); debug build of the CLI.", ref="4/C19"),
 
  "C17": dict(tech="property-based testing (proptest): validity predicates on the three output documents (strict XML checker, JSON round trip, report parser) over generated results with nasty comment / metadata strings; a sample also through the real binary",
@@ -58,11 +58,11 @@ CHECKS = {
              note="Hand-written XML checker (no XML crate offline); comment content fidelity not claimed; one printed unit tolerance.", ref="4/C17"),
 
  "C18": dict(tech="property-based testing (proptest): round trip through Display / FromStr for components and factors, differential evaluation of both sides, and a sample through cteepbd --oc/--of and a second run on the emitted files",
-             text="Generated component files (any layout: legacy lines without id, spacing, comment lines, BOM, CRLF, header; comments with '#', ',', ':'; metadata; AUX, SALIDA, DEMANDA, completion cases) and prepared factor sets are written with to_string() and parsed back: same metadata, demands within 0.005, components equal by (kind, id, tags) within 0.005 per printed value, same user comments, factors with the same keys in order within 0.0005, and the evaluation of the read-back pair within the accumulated printing error. About 1-2 % of the cases run cteepbd --oc/--of and re-run it on the emitted files, comparing the two reports. The factor set held by a result (with the derived COGEN-source lines) is round-tripped as well. Exploration.",
+             text="Generated component files (any layout: legacy lines without id, spacing, comment lines, BOM, CRLF, header; comments with '#', ',', ':'; metadata; AUX, SALIDA, DEMANDA, completion cases) and prepared factor sets are written with to_string() and parsed back: same metadata, demands within 0.005, components equal by (kind, id, tags) within 0.005 per printed value, same user comments, factors with the same keys in order within 0.0005, and the evaluation of the read-back pair within the accumulated printing error. About 1-2 % of the cases run cteepbd --oc/--of and re-run it on the emitted files, comparing the two reports. The factor set held by a result (with the derived COGEN-source lines) is round-tripped as well. Comments include words the program gives a meaning to (CTEEPBD_EXCLUYE_SCOP_ACS and the like); demand lines include magnitudes below 1 kWh and mixed signs. Exploration.",
              note="Grouped comparison (re-reading re-normalises); by-service weighted energy compared with a conditioning-aware slack; CLI part for areas >= 0.01 m2 (metadata precision).", ref="4/C18"),
 
  "C10": dict(tech="property-based testing (proptest): metamorphic relation between a canonical file and a generated meaning-preserving rewriting of it; repeated evaluation in process and in separate processes",
-             text="Each generated building is rendered canonically and through a composition of rewritings (line permutation, splitting a line into pieces that add up, bijective id renumbering incl. to/from 0 and negative ids, omitted id 0, spacing, whitespace, blank and # lines, vector header, BOM, CRLF, demands/metadata positions): both must parse, all numeric fields, RER values and the DHW fraction must agree within tolerance, three repeated evaluations must agree, and a sample is run through the binary twice on the same file and once on the rewritten file (identical report lines, numbers within one printed unit). A fifth of the buildings come from the DHW grammar (multi-fuel cogeneration), and the DHW indicator is compared in the repeated evaluations as well. Exploration.",
+             text="Each generated building is rendered canonically and through a composition of rewritings (line permutation, splitting a line into pieces that add up, bijective id renumbering incl. to/from 0 and negative ids, omitted id 0, spacing, whitespace, blank and # lines, vector header, BOM, CRLF, demands/metadata positions): both must parse, all numeric fields, RER values and the DHW fraction must agree within tolerance, three repeated evaluations must agree, and a sample is run through the binary twice on the same file and once on the rewritten file (identical report lines, numbers within one printed unit). A fifth of the buildings come from the DHW grammar (multi-fuel cogeneration), and the DHW indicator is compared in the repeated evaluations as well. Renumbering covers ids beyond 2^24 up to i32::MAX and i32::MIN. Exploration.",
              note="Tolerance policy (HashMap summation order); lines are split only when their values are whole hundredths.", ref="4/C10"),
 
  "C16": dict(tech="property-based testing (proptest) with a corruption grammar and token soups under catch_unwind, out-of-process runs of the binary with a watchdog, and (thorough) two coverage-guided libFuzzer campaigns whose crashes are re-confirmed in process",
